@@ -318,7 +318,7 @@ class Ctx(object):
         cfg = self.cfgof(body)
         return [g for g in self.guards(body, reject) if g.bb != bb and cfg.dominates(g.bb, bb)]
 
-    def path_conditions(self, body, bb):
+    def path_conditions(self, body, bb, depth=0):
         """[(switch block, cond term, arm value)] for dominating switches whose single arm leads to bb"""
         cfg = self.cfgof(body)
         res = []
@@ -339,6 +339,26 @@ class Ctx(object):
                             otargets.append(tgt)
                 if len(owners) >= 1 and len(owners) < len(edges):
                     res.append((p, self.eng.operand(body, p, TERM_IDX, t['discr']), tuple(owners), tuple(otargets)))
+                    # the switch operand is a flag set to constants on different paths (`matches!(x, A)`, `let f = a && b`): the value that
+                    # leads here was set at one place, and whatever decided that place holds here as well
+                    d = t['discr']
+                    if d['k'] in ('copy', 'move') and not d['place']['p'] and depth < 3:
+                        wd = self.eng.bx(body).whole_defs(d['place']['l'])
+                        consts = []
+                        for (dbb, didx, kind, node) in wd:
+                            if kind == 'assign' and node['rv']['k'] == 'use' and node['rv']['op']['k'] == 'const' and ('bool' in node['rv']['op'] or 'int' in node['rv']['op']):
+                                o = node['rv']['op']
+                                consts.append((dbb, str(int(o['bool'])) if 'bool' in o else str(o['int'])))
+                            else:
+                                consts = None
+                                break
+                        if consts and len(consts) >= 2:
+                            armvals = {str(v) for v, _ in t['arms']}
+                            match = [dbb for dbb, v in consts if (v in owners) or ('otherwise' in owners and v not in armvals)]
+                            if len(match) == 1 and match[0] != bb:
+                                for x in self.path_conditions(body, match[0], depth + 1):
+                                    if x not in res:
+                                        res.append(x)
             n = p
         return res
 
